@@ -194,7 +194,7 @@ fn replay() {
     path = save_replay('C04', name, src, {'tag': v.get('tag'), 'detail': v.get('detail'), 'model': v.get('model')})
     broken = [p for p, (okk, txt) in res.items() if okk is None]
     if broken: return None, path, 'replay build/run problem: ' + res[broken[0]][1][-500:]
-    failed = [p for p, (okk, txt) in res.items() if okk is False and 'VERIF-VIOLATED' in txt]
+    failed = [p for p, (okk, txt) in res.items() if okk is False and ('VERIF-VIOLATED' in txt or 'panicked at' in txt)]
     return (len(failed) > 0), path, '; '.join(f'{p}: {"FAILED" if okk is False else "passed"}' for p, (okk, _) in res.items())
 
 
@@ -300,7 +300,7 @@ fn replay() {
         path = save_replay('C04', self.name, src, {'bytes': data})
         broken = [p for p, (okk, txt) in res.items() if okk is None]
         if broken: return None, path, 'replay build/run problem: ' + res[broken[0]][1][-500:]
-        failed = [p for p, (okk, txt) in res.items() if okk is False and 'VERIF-VIOLATED' in txt]
+        failed = [p for p, (okk, txt) in res.items() if okk is False and ('VERIF-VIOLATED' in txt or 'panicked at' in txt)]
         return (len(failed) > 0), path, '; '.join(f'{p}: {"FAILED" if okk is False else "passed"}' for p, (okk, _) in res.items())
 
 
@@ -316,8 +316,11 @@ def harnesses(world, tier, seed):
                   bounds={'questions': 1, 'records': 'answers 1 (all 19 RDATA variants), authority 1 (' + ('A/NS/SOA/TXT' if q else 'all 19 variants') + ')', 'rdata': 'symbolic fields',
                           'names': 'universe of 2 names (1 and 2 labels, symbolic octets; equal / different decided by the solver)', 'opaque_rdata_len': '0..2', 'qtype/qclass/rclass': 'two representatives each (codec bijection is the `codecs` harness)'},
                   expected_classes=('ptr',)),
+        RoundTrip(name='roundtrip-dotted-labels', nq=1, nrec=(1, 0, 0), shapes=((3,), (1, 1)), sym_hdr=False, types=['A', 'NS', 'MX'],
+                  bounds={'questions': 1, 'records': 'answers 1 (A | NS | MX)', 'names': 'universe of a 1-label name with a 3-octet label and a 2-label name with 1-octet labels, all octets symbolic (so a label may contain a dot or any other octet)'},
+                  expected_classes=('ptr', 'noptr')),
         RoundTrip(name='roundtrip-header', nq=0, nrec=(0, 0, 0), shapes=((1,),), sym_hdr=True, bounds={'header': 'all flags/opcode/rcode/id symbolic', 'sections': 'empty'}, expected_classes=('noptr',)),
         ReEncode(name='reencode-body', n=12 + 5, fixed={2: 0, 3: 0}, assume_fn=c03.small_counts(2), bounds={'input': 'C03 msg-body family, 5 symbolic body bytes'}, expected_classes=('reencoded',)),
         ReEncode(name='reencode-rr', n=12 + 11 + R, fixed=c03.RR_FIXED, bounds={'input': f'C03 rr-template family, {R} symbolic RDATA bytes'}, expected_classes=('reencoded',)),
     ]
-    return hs, (480 if q else 2700), None
+    return hs, (1500 if q else 5400), None
